@@ -1646,6 +1646,52 @@ fn known_witnesses(ctx: &mut Ctx) {
     check_queries(ctx, &spec, &b, &qs);
 }
 
+/// Small-scope exhaustive enumeration of the boolean decision logic: every boolean query with up
+/// to `max_clauses` clauses over six leaf kinds (a term, another term, a term present in every
+/// document — `AllScorer` when scoring is off —, an absent term — `EmptyScorer` —, AllQuery,
+/// EmptyQuery) × every occur assignment × every minimum_should_match in 0..=n+1 and the default,
+/// each also nested under a MUST clause of an outer boolean, on a fixed two-segment corpus with a
+/// deleted document.
+fn exhaustive_bool(ctx: &mut Ctx, max_clauses: usize) {
+    let mut spec = witness_corpus();
+    for d in spec.docs.iter_mut() {
+        d.body = Some(format!("{} z", d.body.clone().unwrap_or_default()));
+    }
+    let b = match build(&spec) { Ok(b) => b, Err(e) => { ctx.report.notes.push(format!("exhaustive corpus failed to build: {e}")); return; } };
+    let t = |w: &str| Q::Term(TermS { f: F_BODY, v: Val::Str(w.into()) });
+    let leaves = vec![t("a"), t("b"), t("z"), t("absentword"), Q::All, Q::Empty];
+    let occs = [Oc::Must, Oc::Should, Oc::MustNot];
+    let mut batch: Vec<Q> = vec![];
+    let mut total = 0u64;
+    for n in 0..=max_clauses {
+        let combos = leaves.len().pow(n as u32) * occs.len().pow(n as u32);
+        for code in 0..combos {
+            let mut c = code;
+            let mut cs: Vec<(Oc, Q)> = vec![];
+            for _ in 0..n {
+                let l = c % leaves.len(); c /= leaves.len();
+                let o = c % occs.len(); c /= occs.len();
+                cs.push((occs[o], leaves[l].clone()));
+            }
+            let mut msms: Vec<Option<usize>> = vec![None];
+            msms.extend((0..=n + 1).map(Some));
+            for msm in msms {
+                let q = Q::Bool(cs.clone(), msm);
+                // nested under an outer MUST next to a term: the inner weight goes through `scorer()`
+                if code % 3 == 0 { batch.push(Q::Bool(vec![(Oc::Must, q.clone()), (Oc::Should, t("c"))], None)); }
+                batch.push(q);
+                total += 1;
+                if batch.len() >= 24 {
+                    check_queries(ctx, &spec, &b, &batch);
+                    batch.clear();
+                }
+            }
+        }
+    }
+    check_queries(ctx, &spec, &b, &batch);
+    ctx.report.count_n("exhaustive-bool:queries", total);
+}
+
 pub fn replay(ctx: &mut Ctx, case: &serde_json::Value) {
     match case["kind"].as_str().unwrap_or("") {
         "query" | "phrase-algorithms" => {
@@ -1682,6 +1728,7 @@ pub fn run(ctx: &mut Ctx) {
         "known deviations are attributed only when Lean okQ (F4 / S6 hypotheses) is false on the query and the implementation model reproduces every real path".into(),
         "phrase slop: real scoring-on / scoring-off scorers = Lean phraseOn / phraseOff per document".into(),
         "i64_to_u64 / f64_to_u64 = Gen.OrderEnc (extracted), monotone on sorted samples, term bytes = big-endian".into(),
+        "exhaustive boolean trees (≤ 2 clauses quick, ≤ 3 thorough) × occur × msm over term/all/empty leaf kinds: all paths = answer = compile model".into(),
     ];
     std::panic::set_hook(Box::new(|info| {
         if let Ok(mut g) = LAST_PANIC.lock() {
@@ -1694,6 +1741,8 @@ pub fn run(ctx: &mut Ctx) {
     }
     known_witnesses(ctx);
     check_encodings(ctx);
+    let max_clauses = ctx.budget(2, 3) as usize;
+    exhaustive_bool(ctx, max_clauses);
     let n_corpora = ctx.budget(44, 900);
     let per_small = ctx.budget(40, 70) as usize;
     for ci in 0..n_corpora {
